@@ -36,7 +36,7 @@ func (c13) Assumptions() []string {
 func (c13) RequiredBuckets(tier string) []string {
 	return []string{"control:clean-entry-reads-back", "flip:header", "flip:body", "truncate", "extend", "wrong-key:renamed", "wrong-key:in-place",
 		"crash:created", "crash:placeholder", "crash:body-write", "crash:flate-closed", "crash:hashed", "crash:pre-header", "crash:post-header", "tear",
-		"fault:open-failed", "cli:crash-then-clean-run", "cli:multi-MiB-output", "cli:two-inputs,-same-arguments", "body:empty", "body:multi-block"}
+		"fault:open-failed", "crash:over-an-earlier-entry", "cli:crash-then-clean-run", "cli:multi-MiB-output", "cli:two-inputs,-same-arguments", "body:empty", "body:multi-block", "body:stored-size-block-aligned"}
 }
 
 type body struct {
@@ -64,6 +64,27 @@ func c13Bodies(r *rand.Rand) []body {
 		{"70KiB-incompressible", rnd},
 		{"200KiB-multi-block", text(200 << 10)},
 	}
+}
+
+// alignedBody searches incompressible bodies of about 4 and 8 KiB for one whose
+// entry is 60 + k*4096 bytes long.
+func (x *c13ctx) alignedBody(r *rand.Rand) (body, bool) {
+	rnd := make([]byte, 8300)
+	r.Read(rnd)
+	for _, base := range []int{8140, 4040} {
+		for n := base; n < base+70; n++ {
+			cache.VerifReset()
+			if crashed, err := x.writeEntry(rnd[:n], 4096); crashed || err != nil {
+				return body{}, false
+			}
+			st, err := os.Stat(x.path())
+			os.Remove(x.path())
+			if err == nil && st.Size() > 60 && (st.Size()-60)%4096 == 0 {
+				return body{fmt.Sprintf("%dB-stored-size-block-aligned", n), append([]byte(nil), rnd[:n]...)}, true
+			}
+		}
+	}
+	return body{}, false
 }
 
 type c13ctx struct {
@@ -165,6 +186,13 @@ func (m c13) Run(c *fw.Ctx) {
 	defer os.RemoveAll(dir)
 	x := &c13ctx{c: c, dir: dir, rsum: sum("root"), dsum: sum("data")}
 	bodies := c13Bodies(c.SubRng("bodies"))
+	// a body whose stored (deflated) form is a whole number of 4 KiB blocks, so
+	// that the entry ends exactly where a block-wise reader stops.
+	if b, ok := x.alignedBody(c.SubRng("aligned")); ok {
+		bodies = append(bodies, b)
+	} else {
+		c.Note("no incompressible body with a block-aligned stored size was found")
+	}
 	sr := c.SubRng("offsets")
 	nSample := c.Pick(300, 20000)
 	masks := []func(b byte) byte{
@@ -184,6 +212,9 @@ func (m c13) Run(c *fw.Ctx) {
 		c.Bucket("body:" + strings.SplitN(bd.name, "-", 2)[0])
 		if bd.name == "200KiB-multi-block" {
 			c.Bucket("body:multi-block")
+		}
+		if strings.HasSuffix(bd.name, "stored-size-block-aligned") {
+			c.Bucket("body:stored-size-block-aligned")
 		}
 		// finished entry.
 		cache.VerifPlan = func(string, int) string { return "" }
@@ -370,6 +401,48 @@ func (m c13) Run(c *fw.Ctx) {
 				}
 				tick()
 			}
+		}
+		// (6b) the same crash points when the entry is written over a finished
+		// entry of the same key (an earlier run's result, longer or shorter):
+		// the interrupted writer must not leave the old entry readable either.
+		for pi, p := range cps {
+			if strings.HasPrefix(p.act, "tear") && p.act != "tear:0" && p.act != "tear:30" {
+				continue
+			}
+			if !c.NextShared() {
+				continue
+			}
+			os.Remove(x.path())
+			cache.VerifReset()
+			cache.VerifPlan = func(string, int) string { return "" }
+			old := append([]byte("an earlier result under the same key\n"), bd.data...)
+			if pi%2 == 1 && len(bd.data) > 8 {
+				old = append([]byte(nil), bd.data[:len(bd.data)/2]...)
+			}
+			if crashed, err := x.writeEntry(old, 4096); crashed || err != nil {
+				c.Inconclusive(fmt.Sprintf("cannot write the earlier entry: crashed=%v err=%v", crashed, err))
+				continue
+			}
+			cache.VerifReset()
+			pp := p
+			cache.VerifPlan = func(point string, hit int) string {
+				if point == pp.point && hit == pp.hit {
+					return pp.act
+				}
+				return ""
+			}
+			crashed, err := x.writeEntry(bd.data, 4096)
+			cache.VerifPlan = func(string, int) string { return "" }
+			if !crashed {
+				c.Inconclusive(fmt.Sprintf("hook point %s hit %d never fired when re-creating an entry (err=%v)", p.point, p.hit, err))
+				continue
+			}
+			c.Hook("crash-injected-on-recreate:" + p.point)
+			c.Bucket("crash:over-an-earlier-entry")
+			cur, _ := os.ReadFile(x.path())
+			complete := bytes.Equal(cur, F)
+			x.judge(bd, "crash-on-recreate:"+p.point, fmt.Sprintf("hit=%d action=%s over an earlier entry of %d bytes", p.hit, p.act, len(old)), !complete, !complete)
+			tick()
 		}
 		os.Remove(x.path())
 	}
